@@ -1080,6 +1080,10 @@ class Executor:
             if isinstance(a, str) and isinstance(b, str):
                 return {'Lt': a < b, 'LtE': a <= b, 'Gt': a > b, 'GtE': a >= b}[name]
             raise PyRaise('TypeError', 'comparison of %s and %s' % (vrepr(a), vrepr(b)))
+        if isinstance(a, VList) and isinstance(b, VList) and a.kind == 'ndarray' and b.kind == 'ndarray' and name not in ('Eq', 'NotEq', 'Is', 'IsNot'):
+            if len(a.items) != len(b.items):
+                raise PyRaise('ValueError', 'operands could not be broadcast together')
+            return VList([self.compare(op, x, y) for x, y in zip(a.items, b.items)], 'ndarray')
         if (isinstance(a, VList) and a.kind == 'ndarray' and is_scalar(b)) or (isinstance(b, VList) and b.kind == 'ndarray' and is_scalar(a)):
             if isinstance(a, VList):
                 return VList([self.compare(op, x, b) for x in a.items], 'ndarray')
@@ -1502,6 +1506,28 @@ class Executor:
                 return PyFn(lambda x: self.np_any(x), 'numpy.any')
             if name == 'all':
                 return PyFn(lambda x: self.np_all(x), 'numpy.all')
+            if name == 'where':
+                def where(c, a, b):
+                    if isinstance(c, bool):
+                        return a if c else b
+                    if isinstance(c, z3.ExprRef) and is_scalar(exact(a)) and is_scalar(exact(b)):
+                        return z3.If(c, to_real(exact(a)), to_real(exact(b)))
+                    return Tm('call:numpy.where', c, a, b)
+                return PyFn(where, 'numpy.where')
+            if name == 'searchsorted':
+                def searchsorted(arr, v, side='left'):
+                    """axiom (numpy docs): returns u with arr[u-1] < v <= arr[u] (left), 0 <= u <= len(arr); arr sorted"""
+                    if not (isinstance(arr, VList) and is_scalar(exact(v)) and side == 'left'):
+                        return Tm('call:numpy.searchsorted', arr, v)
+                    n = len(arr.items)
+                    vz = to_real(exact(v))
+                    for u in range(n + 1):
+                        lo = z3.BoolVal(True) if u == 0 else to_real(arr.items[u - 1]) < vz
+                        hi = z3.BoolVal(True) if u == n else vz <= to_real(arr.items[u])
+                        if self.ctx.decide(z3.And(lo, hi)):
+                            return u
+                    raise _Infeasible()
+                return PyFn(searchsorted, 'numpy.searchsorted')
             if name in ('empty', 'zeros', 'ones'):
                 return PyFn(lambda shape, *a, _n=name, **k: self.np_alloc(_n, shape), 'numpy.' + name)
             if name == 'sum':
@@ -1519,6 +1545,14 @@ class Executor:
                     out.append(u)
                 return VList(out, 'ndarray')
             return PyFn(uniform, 'numpy.random.uniform')
+        if modname in ('scipy.special',) and name in ('gammaln', 'betaln', 'betainc', 'gamma'):
+            ar = {'gammaln': 1, 'gamma': 1, 'betaln': 2, 'betainc': 3}[name]
+
+            def special(*a, _n=name, _ar=ar):
+                if len(a) == _ar and all(is_scalar(exact(x)) for x in a):
+                    return uf(_n, _ar)(*[to_real(exact(x)) for x in a])
+                return Tm('call:scipy.special.' + _n, *a)
+            return PyFn(special, 'scipy.special.' + name)
         if root == 'functools' and name == 'partial':
             def partial(f, *a, **k):
                 return PyFn(lambda ex, *a2, **k2: ex.call(f, list(a) + list(a2), dict(k, **k2)), 'partial', wants_ex=True)
